@@ -44,9 +44,11 @@ func GetNodePreferableGpuForSharing(fittingGPUsOnNode []string, node *node_info.
 	}
 
 	deviceCounts := pod.ResReq.GetNumOfGpuDevices()
+	newGpuGroups := 0
 	for _, gpuIdx := range fittingGPUsOnNode {
 		if gpuIdx == pod_info.WholeGpuIndicator {
-			if wholeGpuForSharing := findGpuForSharingOnNode(pod, node, isPipelineOnly); wholeGpuForSharing != nil {
+			newGpuGroups++
+			if wholeGpuForSharing := findGpuForSharingOnNode(pod, node, isPipelineOnly, newGpuGroups); wholeGpuForSharing != nil {
 				nodeGpusSharing.IsReleasing =
 					nodeGpusSharing.IsReleasing || wholeGpuForSharing.IsReleasing
 				nodeGpusSharing.Groups = append(nodeGpusSharing.Groups, wholeGpuForSharing.Groups...)
@@ -67,10 +69,16 @@ func GetNodePreferableGpuForSharing(fittingGPUsOnNode []string, node *node_info.
 	return nil
 }
 
-func findGpuForSharingOnNode(task *pod_info.PodInfo, node *node_info.NodeInfo, isPipelineOnly bool) *nodeGpuForSharing {
+// findGpuForSharingOnNode opens a new gpu group on a whole GPU of the node. newGpuGroups is the number of
+// groups the task opens on this node including this one: each of them needs its own idle whole GPU to be
+// usable immediately. IsTaskAllocatable alone is not enough - it is also satisfied by room on an existing
+// shared GPU while the only non-shared GPUs left are still releasing.
+func findGpuForSharingOnNode(task *pod_info.PodInfo, node *node_info.NodeInfo, isPipelineOnly bool,
+	newGpuGroups int) *nodeGpuForSharing {
 	isReleasing := true
 	if !isPipelineOnly {
-		if taskAllocatable := node.IsTaskAllocatable(task); taskAllocatable {
+		taskAllocatable := node.IsTaskAllocatable(task)
+		if taskAllocatable && float64(newGpuGroups) <= node.Idle.GPUs() {
 			isReleasing = false
 		}
 	}
